@@ -172,6 +172,12 @@ try:
 except ImportError:      # pragma: no cover
     _relay_ts = None
 
+if _relay_ts is not None:
+    # the relay keeps protocols / per-connection state objects in sets
+    from wormhole_transit_relay import server_state as _relay_ss
+    for _cls in (_relay_ts.TransitConnection, _relay_ss.TransitServerState):
+        _cls.__hash__ = _serial_hash
+
 # local environment
 ADDRESSES = ["127.0.0.1", "10.1.0.1"]
 
